@@ -1,3 +1,3 @@
 (** Everything the extraction needs (build target of the check driver). *)
 From LC Require Export Spec.Positions Spec.Predicates Spec.Grammar Spec.Printing Spec.Confluence Spec.Standard
-  Model.Reduction Model.TermOps Model.Parser Model.Display.
+  Spec.Encodings Model.Reduction Model.TermOps Model.Parser Model.Display Model.Convert Gen.Terms.
